@@ -39,6 +39,7 @@ def tasks(tier):
     for shape in range(4):
         for unset in (0, 1):
             ts.append(Task('verifHarness_C06_writemessage', [shape, unset], {'x25_uf': True}))
+        ts.append(Task('verifHarness_C06_key_rotated_in_place', [shape], {'x25_uf': True}))
     for n in (0, 1, 31, 32, 33, 64):
         ts.append(Task('verifHarness_C06_key', [n]))
     for n in (0, 2):
@@ -52,7 +53,7 @@ def tasks(tier):
 
 
 def required_reach(tier):
-    return ['C06/a', 'C06/b', 'C09/S', 'C06/c', 'C06/d', 'C06/e', 'C06/f']
+    return ['C06/a', 'C06/b', 'C09/S', 'C06/c', 'C06/c2', 'C06/d', 'C06/e', 'C06/f']
 
 
 def bounds(tier):
